@@ -787,3 +787,16 @@ _C02_GUARDS = [
 def c02_l(ctx):
     from .base import check_guard_table
     check_guard_table(ctx, _C02_GUARDS)
+
+
+@obligation('C02-m', 'T10 T2', 'nothing is computed from the submission counter: it depends on '
+            'what was submitted (and cancelled) before, not on (seed, batch index) (shared with '
+            'C04-l)', floor=4,
+            necessary='a seed derived from the number of earlier submissions makes a batch depend '
+                      'on the history of the context')
+def c02_m(ctx):
+    from .C04 import schedule_counter_sweep
+    n = schedule_counter_sweep(ctx)
+    if n < 4:
+        ctx.undecided('expected the four known sites of the submission counter, found {}'
+                      .format(n))
